@@ -185,7 +185,9 @@ impl<E: FieldElement> DeepCompositionPoly<E> {
 
         // set the coefficients of the DEEP composition polynomial
         self.coefficients = trace_poly;
-        assert_eq!(self.poly_size() - 2, self.degree());
+        // the degree is trace_length - 2 unless the leading terms cancel (e.g. when no trace
+        // polynomial has full degree), in which case it is smaller
+        assert!(self.degree() <= self.poly_size() - 2);
     }
 
     // CONSTRAINT POLYNOMIAL COMPOSITION
@@ -223,7 +225,9 @@ impl<E: FieldElement> DeepCompositionPoly<E> {
         for (i, poly) in column_polys.into_iter().enumerate() {
             mul_acc::<E, E>(&mut self.coefficients, &poly, self.cc.constraints[i]);
         }
-        assert_eq!(self.poly_size() - 2, self.degree());
+        // the degree is trace_length - 2 unless the leading terms cancel (e.g. when no trace
+        // polynomial has full degree), in which case it is smaller
+        assert!(self.degree() <= self.poly_size() - 2);
     }
 
     // LOW-DEGREE EXTENSION
